@@ -782,6 +782,163 @@ fn check_gradinit_lowrank(d: usize, kind: KineticEnergyKind, p: &mut Partial) {
     p.class(format!("lowrank-gradinit:{kind:?}"));
 }
 
+/// The same through every way the real adaptation strategies change a transformation (the
+/// draw-variance-only diagonal estimate, the draw/gradient estimate, the gradient initialiser,
+/// the low-rank window update and its gradient initialiser): a state whitened before the change
+/// and handed to `initialize_trajectory` afterwards must be the state a fresh `init_state`
+/// builds at the same position, and one leapfrog step from both must agree.
+fn rederive_oracle<T: Transformation<M>>(
+    h: &mut TransformedHamiltonian<M, T>,
+    math: &mut M,
+    spy: &SpyRc,
+    st: &mut State<M, TransformedPoint<M>>,
+    x: &[f64],
+    key: &str,
+    p: &mut Partial,
+) {
+    let d = x.len();
+    let replay = json!({"path": key, "d": d});
+    let mut rng = ChaCha8Rng::seed_from_u64(3);
+    let z: Vec<f64> = (0..d).map(|i| 0.5 - 0.2 * (i % 4) as f64).collect();
+    spy.borrow_mut().gaussian_script.push_back(z.clone());
+    if h.initialize_trajectory(math, st, true, &mut rng).is_err() {
+        p.violation(format!("C02/initialize-trajectory-failed-after-adaptation/{key}"), String::new(), replay);
+        return;
+    }
+    let Ok(mut fresh) = h.init_state(math, x) else { return };
+    spy.borrow_mut().gaussian_script.push_back(z);
+    if h.initialize_trajectory(math, &mut fresh, true, &mut rng).is_err() {
+        return;
+    }
+    let view = |s: &State<M, TransformedPoint<M>>, math: &mut M| -> (Vec<f64>, Vec<f64>, f64, Vec<f64>) {
+        (
+            nv::point_transformed_position(s.point(), math).to_vec(),
+            nv::point_transformed_gradient(s.point(), math).to_vec(),
+            s.point().energy(),
+            math.box_array(s.point().position()).to_vec(),
+        )
+    };
+    let (y, gy, e, _) = view(st, math);
+    let (y2, gy2, e2, _) = view(&fresh, math);
+    if max_rel(&y, &y2) > 1e-12 || max_rel(&gy, &gy2) > 1e-12 {
+        p.violation(
+            format!("C02/stale-whitened-coordinates-after-transformation-change/{key}"),
+            format!("carried-over state {:?}, fresh state at the same position {:?}", &y[..d.min(3)], &y2[..d.min(3)]),
+            replay.clone(),
+        );
+        return;
+    }
+    if !mc_core::rel_close(e, e2, 1e-10, 1e-10) || !mc_core::rel_close(st.point().initial_energy(), fresh.point().initial_energy(), 1e-10, 1e-10) {
+        p.violation(
+            format!("C02/stale-logdet-after-transformation-change/{key}"),
+            format!("energy {e} (initial {}) of the carried-over state vs {e2} (initial {}) of a fresh state", st.point().initial_energy(), fresh.point().initial_energy()),
+            replay.clone(),
+        );
+        return;
+    }
+    *h.step_size_mut() = 0.15;
+    let a = h.leapfrog(math, st, Direction::Forward, 1.0, st.point().initial_energy(), f64::INFINITY, &mut NoCollector);
+    let b = h.leapfrog(math, &fresh, Direction::Forward, 1.0, fresh.point().initial_energy(), f64::INFINITY, &mut NoCollector);
+    if let (LeapfrogResult::Ok(a), LeapfrogResult::Ok(b)) = (a, b) {
+        let (_, _, ea, xa) = view(&a, math);
+        let (_, _, eb, xb) = view(&b, math);
+        if max_rel(&xa, &xb) > 1e-12 || !mc_core::rel_close(ea, eb, 1e-10, 1e-10) {
+            p.violation(
+                format!("C02/step-from-carried-over-state-differs/{key}"),
+                format!("{:?} (energy {ea}) vs {:?} (energy {eb})", &xa[..d.min(3)], &xb[..d.min(3)]),
+                replay,
+            );
+            return;
+        }
+    }
+    p.class(format!("rewhiten-adapt:{}", key.split('/').next().unwrap_or("")));
+}
+
+fn check_rewhiten_via_estimators(d: usize, p: &mut Partial) {
+    use nuts_rs::verif::{DiagAdaptStrategy, LowRankMassMatrixStrategy, MassMatrixAdaptStrategy, NutsOptions};
+    use nuts_rs::DiagAdaptExpSettings;
+    let x: Vec<f64> = (0..d).map(|i| 0.3 + 0.2 * i as f64).collect();
+    // a window of draws with distinct per-coordinate spread, gradients of N(0, diag(sig^2))
+    let sig: Vec<f64> = (0..d).map(|i| 0.4 + 0.45 * (i % 5) as f64).collect();
+    let n = 8usize;
+    let draws: Vec<Vec<f64>> = (0..n)
+        .map(|k| (0..d).map(|i| sig[i] * (((k * 7 + i * 3) % 11) as f64 - 5.0) / 3.0 + 0.1 * (k as f64 - 3.5) * ((i % 2) as f64)).collect())
+        .collect();
+    let grads: Vec<Vec<f64>> = draws.iter().map(|x| (0..d).map(|i| -x[i] / (sig[i] * sig[i])).collect()).collect();
+    for grad_based in [false, true] {
+        for via_init in [false, true] {
+            let (mut math, spy) = SpyMath::new(Dens::new(Target::std_normal(d)));
+            let mut strat = DiagAdaptStrategy::<M>::new(
+                &mut math,
+                DiagAdaptExpSettings { store_mass_matrix: false, use_grad_based_estimate: grad_based },
+                0,
+                0,
+            );
+            let mut mm = nv::diag_mass_matrix_new(&mut math, false);
+            let s1: Vec<f64> = (0..d).map(|i| 0.5 + i as f64).collect();
+            let m1: Vec<f64> = (0..d).map(|i| 0.1 * i as f64).collect();
+            nv::diag_mass_matrix_set(&mut mm, &mut math, &col(&s1), &col(&m1));
+            let mut h = TransformedHamiltonian::new(&mut math, mm, KineticEnergyKind::Euclidean);
+            p.evaluations += 1;
+            let Ok(mut st) = h.init_state(&mut math, &x) else { continue };
+            let key = format!("diag-{}-{}/d{d}", if grad_based { "draw-grad" } else { "draw-only" }, if via_init { "init" } else { "adapt" });
+            if via_init {
+                let mut opts = NutsOptions::default();
+                let mut rng = ChaCha8Rng::seed_from_u64(0);
+                let pt = st.clone();
+                if strat.init(&mut math, &mut opts, h.transformation_mut(), pt.point(), &mut rng).is_err() {
+                    continue;
+                }
+            } else {
+                for (xx, g) in draws.iter().zip(&grads) {
+                    let c = nv::draw_grad_collector(&mut math, xx, g, true);
+                    strat.update_estimators(&mut math, &c);
+                }
+                if !strat.adapt(&mut math, h.transformation_mut()) {
+                    p.count("rewhiten_adapt_did_not_change_the_transformation", 1);
+                    continue;
+                }
+            }
+            rederive_oracle(&mut h, &mut math, &spy, &mut st, &x, &key, p);
+        }
+    }
+    if d >= 2 {
+        for (name, cutoff) in [("default-cutoff", None), ("cutoff1", Some(1.0))] {
+            let (mut math, spy) = SpyMath::new(Dens::new(Target::std_normal(d)));
+            let mut settings = LowRankSettings::default();
+            if let Some(c) = cutoff {
+                settings.eigval_cutoff = c;
+            }
+            let mut strat = <LowRankMassMatrixStrategy as MassMatrixAdaptStrategy<M>>::new(&mut math, settings, 0, 0);
+            let mut mm = LowRankMassMatrix::new(&mut math, settings);
+            let pos0 = col(&vec![0.1; d]);
+            let grad0 = col(&(0..d).map(|i| -0.5 - 0.1 * i as f64).collect::<Vec<_>>());
+            mm.update_from_grad(&mut math, &pos0, &grad0, 1.0, (1e-20, 1e20));
+            let mut h = TransformedHamiltonian::new(&mut math, mm, KineticEnergyKind::Euclidean);
+            p.evaluations += 1;
+            let Ok(mut st) = h.init_state(&mut math, &x) else { continue };
+            // correlated window: add a common component to every coordinate
+            let cdraws: Vec<Vec<f64>> = draws.iter().enumerate().map(|(k, v)| v.iter().map(|a| a + 0.9 * (k as f64 - 3.5)).collect()).collect();
+            for (xx, g) in cdraws.iter().zip(&grads) {
+                let c = nv::draw_grad_collector(&mut math, xx, g, true);
+                <LowRankMassMatrixStrategy as MassMatrixAdaptStrategy<M>>::update_estimators(&mut strat, &mut math, &c);
+            }
+            let changed = std::panic::catch_unwind(std::panic::AssertUnwindSafe(|| {
+                <LowRankMassMatrixStrategy as MassMatrixAdaptStrategy<M>>::adapt(&strat, &mut math, h.transformation_mut())
+            }));
+            if !matches!(changed, Ok(true)) {
+                p.count("rewhiten_adapt_did_not_change_the_transformation", 1);
+                continue;
+            }
+            rederive_oracle(&mut h, &mut math, &spy, &mut st, &x, &format!("lowrank-adapt-{name}/d{d}"), p);
+            // and a second change through the gradient initialiser
+            let Ok(mut st2) = h.init_state(&mut math, &x) else { continue };
+            h.transformation_mut().update_from_grad(&mut math, &pos0, &grad0, 1.0, (1e-20, 1e20));
+            rederive_oracle(&mut h, &mut math, &spy, &mut st2, &x, &format!("lowrank-gradinit-after-{name}/d{d}"), p);
+        }
+    }
+}
+
 pub fn run(tier: Tier, _replay: Option<String>) -> i32 {
     let mut report = Report::new(
         "C02",
@@ -854,6 +1011,7 @@ pub fn run(tier: Tier, _replay: Option<String>) -> i32 {
         }
         check_rewhiten(d, &mut p);
         check_rewhiten_lowrank(d, &mut p);
+        check_rewhiten_via_estimators(d, &mut p);
         for kind in [KineticEnergyKind::Euclidean, KineticEnergyKind::ExactNormal, KineticEnergyKind::Microcanonical] {
             check_gradinit_lowrank(d, kind, &mut p);
         }
